@@ -59,12 +59,19 @@ def re_lit(c: int, py: bool) -> str:
 
 
 def re_text(r: Any, py: bool = False) -> str:
-    """RE2 text of a regex tree (py=True: the Python `re` spelling used by the oracle: \\A and \\Z anchors)."""
+    """RE2 text of a regex tree with as few parentheses as the grammar allows (alternation < concatenation <
+    postfix), so that bare `a|b`, `ab|c`, `a|`, `|a`, `ab*` … occur as such.
+    py=True: the Python `re` spelling used by the oracle (\\A and \\Z anchors)."""
+    return _re_render(r, py, 0)
+
+
+def _re_render(r: Any, py: bool, level: int) -> str:
+    """level: 0 = alternation allowed bare, 1 = inside a concatenation, 2 = operand of a postfix operator"""
     k = r[0]
     if k == "bad":
         return r[1]
     if k == "eps":
-        return "(?:)"
+        return "" if level < 2 else "(?:)"
     if k == "c":
         return re_lit(r[1], py)
     if k == "any":
@@ -72,12 +79,17 @@ def re_text(r: Any, py: bool = False) -> str:
     if k == "cls":
         body = "".join(re_lit(lo, py) if lo == hi else re_lit(lo, py) + "-" + re_lit(hi, py) for lo, hi in r[2])
         return "[" + ("^" if r[1] else "") + body + "]"
-    if k == "cat":
-        return "(?:" + re_text(r[1], py) + re_text(r[2], py) + ")"
     if k == "alt":
-        return "(?:" + re_text(r[1], py) + "|" + re_text(r[2], py) + ")"
+        t = _re_render(r[1], py, 0) + "|" + _re_render(r[2], py, 0)
+        return t if level == 0 else "(?:" + t + ")"
+    if k == "cat":
+        t = _re_render(r[1], py, 1) + _re_render(r[2], py, 1)
+        return t if level <= 1 else "(?:" + t + ")"
     if k in ("star", "plus", "opt"):
-        return "(?:" + re_text(r[1], py) + ")" + {"star": "*", "plus": "+", "opt": "?"}[k]
+        # a postfix operator directly on a postfix operator would be read as a lazy/possessive quantifier
+        # (or rejected: `a**`), and Python refuses to repeat a bare anchor: those operands keep their group
+        inner = _re_render(r[1], py, 2) if r[1][0] in ("c", "any", "cls", "alt", "cat", "eps") else "(?:" + _re_render(r[1], py, 0) + ")"
+        return inner + {"star": "*", "plus": "+", "opt": "?"}[k]
     if k == "bol":
         return "\\A" if py else "^"
     if k == "eol":
@@ -910,6 +922,80 @@ def law_cases(g: Gen) -> List[Any]:
     return out
 
 
+def lit_word(g: "Gen", maxlen=2):
+    """a concatenation of 0..maxlen plain letters as a regex tree"""
+    r = g.rng
+    n = r.randint(0, maxlen)
+    if n == 0:
+        return ["eps"]
+    t = ["c", r.choice([97, 98, 99])]
+    for _ in range(n - 1):
+        t = ["cat", t, ["c", r.choice([97, 98, 99])]]
+    return t
+
+
+def bare_regex_cases(g: "Gen") -> List[Any]:
+    """patterns whose TEXT has exactly one kind of metacharacter among plain letters: bare top-level alternation
+    (`a|b`, `ab|c`, `a|`, `|a`, `a|b|c`), and each other operator alone"""
+    r = g.rng
+    out = []
+    alts = [lit_word(g) for _ in range(r.randint(2, 3))]
+    t = alts[0]
+    for a in alts[1:]:
+        t = ["alt", t, a]
+    out.append(t)
+    w, x = ["c", r.choice([97, 98, 99])], ["c", r.choice([97, 98, 99])]
+    out.append(r.choice([["alt", w, ["eps"]], ["alt", ["eps"], w], ["alt", w, x], ["alt", ["cat", w, x], ["c", 99]]]))
+    one = r.choice([["cat", w, ["star", x]], ["cat", ["plus", w], x], ["cat", w, ["opt", x]], ["cat", ["any"], w],
+                    ["cat", ["bol"], w], ["cat", w, ["eol"]], ["cls", False, [[97, 98]]], ["cat", w, ["cls", True, [[97, 97]]]]])
+    out.append(one)
+    return out
+
+
+def error_position_cases(g: "Gen") -> List[Any]:
+    """the five macros over index lists where the body `[7, 8, 7][i] == 7` matches at 0 and 2, fails at 1 and is an
+    out-of-range ERROR at 3…: errors before / between / after two or more matches.  exists_one, map and filter must
+    report the error wherever it is; all / exists absorb it only when another element decides."""
+    r = g.rng
+    n = r.randint(2, 5)
+    idx = [r.choice([0, 2, 0, 2, 1, 5, 3, -1]) for _ in range(n)]
+    if r.random() < 0.5:                    # force: at least two matches and one error, in a random order
+        idx = [0, 2, r.choice([3, 5, -1])] + idx[:r.randint(0, 2)]
+        r.shuffle(idx)
+    l = ["L", [["i", i] for i in idx]]
+    probe = ["L", [["i", 7], ["i", 8], ["i", 7]]]
+    pred = ["==", ["idx", probe, ["v", 1]], ["i", 7]]
+    out = [[mk, 1, l, pred] for mk in ("exists_one", "all", "exists", "filter")]
+    out.append(["map", 1, l, ["idx", probe, ["v", 1]]])
+    out.append(["exists_one", 1, l, ["&&", pred, ["b", True]]])
+    return out
+
+
+def outer_variable_cases(g: "Gen") -> List[Any]:
+    """`l.map(x, e)`: element i is e at x = l[i] — with bodies e that contain a macro reading the OUTER variable,
+    over outer lists with at least two different elements"""
+    r = g.rng
+    vals = r.sample(range(-2, 7), r.randint(2, 4))
+    l = ["L", [["i", v] for v in vals]]
+    m = ["L", [["i", r.randint(-2, 7)] for _ in range(r.randint(1, 3))] + [["i", r.choice(vals)]]]
+    x, y, z = 1, 2, 3
+    out = [
+        ["map", x, l, ["map", y, m, ["+", ["v", x], ["v", y]]]],
+        ["filter", x, l, ["exists", y, m, ["==", ["v", y], ["v", x]]]],
+        ["map", x, l, ["filter", y, m, [">", ["v", y], ["v", x]]]],
+        ["exists_one", x, l, ["all", y, m, ["!=", ["v", y], ["v", x]]]],
+        ["map", x, l, ["exists_one", y, m, ["==", ["v", y], ["v", x]]]],
+        ["all", x, l, ["exists", y, m, ["<=", ["v", y], ["v", x]]]],
+        ["map", x, l, ["map", y, m, ["map", z, ["L", [["v", x], ["v", y]]], ["*", ["v", z], ["v", x]]]]],
+        ["map", x, l, ["size", ["filter", y, m, ["in", ["v", x], ["L", [["v", y], ["i", vals[0]]]]]]]],
+    ]
+    # the law itself, closed: element i of the map equals the body at x = l[i]
+    j = r.randrange(len(vals))
+    body = ["map", y, m, ["+", ["v", x], ["v", y]]]
+    out.append(["==", ["idx", ["map", x, l, body], ["i", j]], ["map", y, m, ["+", ["i", vals[j]], ["v", y]]]])
+    return r.sample(out, 5)
+
+
 def _rename(e, a, b):
     if not isinstance(e, list):
         return e
@@ -942,14 +1028,15 @@ class C09(Prop):
             "(in-range, boundary, negative, int64 extremes), map lookup/select/has, in, size, + concat, string functions, matches over "
             "generated regex trees and a list of invalid patterns, the five macros over lists and maps, &&, ||, !, ?:, arithmetic; each on both runners; "
             "closed law instances (in=exists, size(map)=size, filter subset, exists_one=count, startsWith/endsWith/size of concat, index errors); "
-            "(regex,string) pairs against function_matches. non-trivial = distinct case on which the reference semantics gives a verdict and "
+            "(regex,string) pairs against function_matches, rendered with minimal parentheses (bare `a|b`, `a|`, one operator among letters); "
+            "macros over index lists with errors before/between/after >= 2 matches; nested macros whose inner body reads the outer variable. non-trivial = distinct case on which the reference semantics gives a verdict and "
             "which uses at least one list/map/string/macro operation")
 
     def generate(self, rng, tier):
         quick = tier == "quick"
         g = Gen(rng)
         cases: List[Dict[str, Any]] = []
-        n_expr = 650 if quick else 14000
+        n_expr = 560 if quick else 14000
         for i in range(n_expr):
             t = g.gtype(2)
             e = g.expr(t, rng.randint(1, 4), [])
@@ -959,8 +1046,18 @@ class C09(Prop):
             for e in law_cases(g):
                 for rn in ("I", "C"):
                     cases.append({"kind": "expr", "runner": rn, "e": e})
-        for i in range(1200 if quick else 40000):
+        for i in range(22 if quick else 500):
+            for e in error_position_cases(g) + outer_variable_cases(g):
+                for rn in ("I", "C"):
+                    cases.append({"kind": "expr", "runner": rn, "e": e})
+        for i in range(1000 if quick else 40000):
             cases.append({"kind": "re", "re": g.regex(rng.randint(1, 4)), "s": g.restr()})
+        for i in range(60 if quick else 2000):
+            for t in bare_regex_cases(g):
+                cases.append({"kind": "re", "re": t, "s": g.restr()})
+                if i % 4 == 0:
+                    for rn in ("I", "C"):
+                        cases.append({"kind": "expr", "runner": rn, "e": ["matches", t, ["s", g.restr()]]})
         for p in BAD_PATTERNS:
             cases.append({"kind": "re", "re": ["bad", p], "s": [97]})
         return cases
